@@ -319,6 +319,16 @@ print(json.dumps(out))
                 fails.append({"input": str(desnap(snap(x)))[:300], "observed": "== is false for a structurally identical rebuild", "expected": "True"})
                 break
             others = ["s", 3, None, core.TagList(), core.Tag("div"), core.HTMLDependency("a", "1.0"), core.MetadataNode()]
+            # look-alikes of another kind: the same items in a plain list / tuple / UserList, a tag's child list, a list around the tag
+            import collections
+            if isinstance(x, core.TagList):
+                others += [list(x), tuple(x), collections.UserList(list(x)), core.Tag("div", *x)]
+                if (core.TagList() == []) or ([] == core.TagList()):
+                    fails.append({"input": "TagList() == []", "observed": True, "expected": "False (different kinds)"})
+            else:
+                others += [x.children, list(x.children), core.TagList(x), [x], dict(x.attrs), str(x), core.HTML(str(x))]
+                if x.children == list(x.children) or list(x.children) == x.children:
+                    fails.append({"input": str(desnap(snap(x)))[:200] + ": x.children == list(x.children)", "observed": True, "expected": "False (a TagList and a list are different kinds)"})
             for o in others:
                 if type(o) is not type(x) and (x == o or o == x):
                     fails.append({"input": str(desnap(snap(x)))[:200] + " vs " + repr(o)[:50], "observed": "== is true for objects of different kinds", "expected": "False"})
